@@ -96,6 +96,7 @@ def time_inputs(dialect, frac, seed):
             if h(dialect, x, y, seed) % frac == 0:
                 fmts.append(f"{x}-{y}")
                 fmts.append(f"{x} {y}:%M")
+                fmts.append(f"{x}{y}")  # adjacent tokens: the tries' longest match decides where one ends
     out = []
     for fn in TIME_FUNCS:
         cls = getattr(exp, fn)
